@@ -225,6 +225,7 @@ pub(crate) async fn process_socket_command(
       target_endpoint_uri,
       connection_iface,
       peer_identity,
+      peer_socket_type,
       fd,
     } => {
       let is_outbound = {
@@ -247,7 +248,7 @@ pub(crate) async fn process_socket_command(
         target_endpoint_uri: Some(target_endpoint_uri),
         is_outbound_connection: is_outbound,
         connection_iface,
-        peer_socket_type: None,
+        peer_socket_type,
       };
 
       {
